@@ -7,7 +7,7 @@ from .latin import vocabulary as latin
 from .russian import vocabulary as ru
 from .spanish import vocabulary as sp
 
-re_lorem = re.compile(r'^lorem([a-z]*)(\d*)(-\d*)?$', re.I)
+re_lorem = re.compile(r'^lorem([a-z]*)(\d*)(-\d+)?$', re.I)
 
 vocabularies = {
     'ru': ru,
